@@ -698,6 +698,10 @@ func (c *Client) receipts(ctx context.Context, url string, bm blockmap, start, l
 	if err != nil {
 		return fmt.Errorf("requesting receipts: %w", err)
 	}
+	if len(resps) != len(reqs) {
+		const tag = "eth_getBlockReceipts batch response has %d results. expected %d"
+		return fmt.Errorf(tag, len(resps), len(reqs))
+	}
 	for i := range resps {
 		if resps[i].Error.Exists() {
 			const tag = "eth_getBlockReceipts"
@@ -705,8 +709,12 @@ func (c *Client) receipts(ctx context.Context, url string, bm blockmap, start, l
 		}
 	}
 	for i := range resps {
+		if resps[i].Result == nil {
+			const tag = "eth_getBlockReceipts missing result. num=%d"
+			return fmt.Errorf(tag, start+uint64(i))
+		}
 		if len(resps[i].Result) == 0 {
-			slog.ErrorContext(ctx, "no rpc error but empty result")
+			// block without transactions
 			continue
 		}
 		blockNum := uint64(resps[i].Result[0].BlockNum)
@@ -809,6 +817,8 @@ func (c *Client) logs(ctx context.Context, url string, filter *glf.Filter, bm bl
 		return fmt.Errorf("rpc=eth_getLogs %w", lresp.Error)
 	case hresp.Header == nil:
 		return fmt.Errorf("eth backend missing logs for block: %d", toBlock)
+	case lresp.Result == nil:
+		return fmt.Errorf("rpc=eth_getLogs missing result")
 	}
 	var logsByTx = map[key][]logResult{}
 	for i := range lresp.Result {
